@@ -586,6 +586,10 @@ void execute_assignment(StatementExecutor *executor, Interpreter &interpreter,
                                          array_name);
             }
 
+            // the element is created on demand below: the index has to lie
+            // inside the array first
+            interpreter.ensure_array_index_in_bounds(*array_var, idx);
+
             // 構造体リテラルを配列要素に代入
             // assign_struct_literal()が配列要素変数とメンバー変数を自動的に作成する
             interpreter.assign_struct_literal(element_name, node->right.get());
